@@ -44,6 +44,30 @@ CLAIMED = {
         note="Domain: unicode lists without duplicates, renames onto absent names. ufoLib's getUnicodes scanner exercised, not modelled. Reload after external change is covered under C05's model, not here.",
         technique="Lean 4 proof (invariant induction over operation sequences) + model/implementation correspondence",
     ),
+    "C14": dict(
+        text=("Machine-checked Lean 4 theorems about an executable model of defcon's serialization layer (BaseObject._serialize "
+              "with whitelist/blacklist, the guarded setter loop, get/setDataFromSerialization of all 16 object kinds, the "
+              "Contour recorder play-back, identifier registries, parent/observer wiring), whose getter/setter key tables are "
+              "regenerated from the Python AST on every run: (1) `decide` obligations over the complete regenerated tables "
+              "(every observable field has a getter AND a setter entry; every key is one the model implements; dynamic kinds "
+              "use the expected provider / key source / bulk form; Info covers fontTools' UFO 3 attribute list); (2) for ALL "
+              "model objects, deser(ser o) into a new object has equal observable data - per kind, for glyphs in both the "
+              "shallow and the fully loaded contour form, for layers, layer sets and whole fonts (layers, order, default, "
+              "glyphs, info, kerning, groups, features, lib, temp lib, guidelines, images, data); (3) the rebuilt tree is "
+              "wired (parents, observers) for every content, every node's change reaches every ancestor, identifier "
+              "registries hold exactly the identifiers in use. Tied to the code by differential runs on generated fonts "
+              "(API-built and re-opened UFO 3/2 with unread/partly/fully read glyphs, edit histories, data dict and pickle, "
+              "parent-less and in-font targets) and a direct oracle on the real rebuilt objects (public getters, parent "
+              "accessors, mutate-every-node propagation probes, registries, cross-tree relays)."),
+        design="DESIGN.md section 5 (C14)",
+        note=("Checks defcon WITH repo_fixes/C14-*.diff (F22 font guideline identifiers; Layer.GlyphAdded on rebuild so components "
+              "find their base glyph; image-set file names). Modelled not verified: leaf Python values are opaque canonical texts "
+              "(the model moves and compares them, never computes with them); pickle; Color() normalisation (identity on "
+              "stored colours); ufoLib's Info validator (every stored value passed it); weakref/GC. Hypotheses of the theorems: "
+              "dict keys unique, an Image holds its 8 entries, identifiers in use distinct per glyph (C10's invariant). "
+              "Independence of original and rebuilt object, dirty flags, path/file structure are not part of the property."),
+        technique="Lean 4 proof (explicit rebuild equations per kind, composed bottom-up; decide over regenerated tables) + model/implementation correspondence",
+    ),
 }
 
 NOT_YET = {}
